@@ -65,6 +65,8 @@ impl PriorityReceiver {
 
 		if let Some(timer) = stop_timer.clone() {
 			select! {
+				// in priority order: when several are ready at once, the first listed wins
+				biased;
 				() = timer.to_sleep() => {
 					*stop_timer = None;
 					Some(timer.to_control())
@@ -74,6 +76,8 @@ impl PriorityReceiver {
 			}
 		} else {
 			select! {
+				// in priority order: when several are ready at once, the first listed wins
+				biased;
 				message = self.urgent.recv() => message,
 				message = self.high.recv() => message,
 				message = self.normal.recv() => message,
